@@ -2,14 +2,16 @@
    Model/Ods.v starts from the element tree of content.xml; Spec/OdsSpec.v is a family of ODF encoders in which every
    optional encoding feature is a switch. *)
 From Coq Require Import String.
-From CP Require Import Model.Base Model.Lex Model.FieldTypes Model.Ods Spec.FieldSpec Spec.OdsSpec Proofs.OdsProofs.
+From CP Require Import Model.Base Model.Lex Model.FieldTypes Model.Ods Spec.FieldSpec Spec.OdsSpec Proofs.OdsProofs Generated.Consts.
 Local Open Scope Z_scope.
 
 (* For all tables (any number of rows, ragged, any cell texts incl. blanks, tabs, line breaks, empty cells, equal
    neighbours), all styles of encoding (each feature on or off, per sheet), any number of sheets: reading sheet k
-   returns exactly the rows and cell texts of the k-th sheet. *)
+   returns exactly the rows and cell texts of the k-th sheet.  [small_table]: no more rows, cells per row or characters
+   per cell than the largest repeat count the reader accepts (_MAX_ODS_REPEATED_COUNT, read from the source, at least
+   2^20 by table_size_bound_is_generous) - a count beyond it is refused (ods_huge_count_is_refused). *)
 Theorem ods_decodes_every_encoding : forall (sheets : list (style * list (list text))) k st t, (1 <= k)%nat ->
-  nth_error sheets (k - 1) = Some (st, t) ->
+  nth_error sheets (k - 1) = Some (st, t) -> small_table t ->
   ods_rows (CDoc (map (fun p => enc_table (fst p) (snd p)) sheets)) k = ORows t false.
 Proof. exact ods_decodes. Qed.
 
@@ -27,11 +29,15 @@ Proof. intros k. repeat split. Qed.
 Theorem ods_bad_count_is_refused : forall a, (forall z, py_int a = IOk z -> z < 1) -> py_int a <> IOut ->
   repeated_count (Some a) = CountBad.
 Proof. exact bad_count. Qed.
-Theorem ods_bad_row_count_fails : forall st before a cells after,
+Theorem ods_huge_count_is_refused : forall a z, py_int a = IOk z -> MAX_ODS_REPEATED_COUNT < z -> repeated_count (Some a) = CountBad.
+Proof. exact large_count. Qed.
+Theorem table_size_bound_is_generous : 1048576 <= MAX_ODS_REPEATED_COUNT.
+Proof. exact max_count_is_large. Qed.
+Theorem ods_bad_row_count_fails : forall st before a cells after, small_table before ->
   repeated_count (Some a) = CountBad -> (exists row, cells_row cells = Some (Some row)) ->
   table_rows (enc_table st before ++ {| or_rep := Some a; or_cells := cells |} :: after) = ORows before true.
 Proof. exact ods_bad_row_count. Qed.
-Theorem ods_bad_cell_count_fails : forall st before a paras more after,
+Theorem ods_bad_cell_count_fails : forall st before a paras more after, small_table before ->
   repeated_count (Some a) = CountBad ->
   table_rows (enc_table st before ++ {| or_rep := None; or_cells := {| oc_rep := Some a; oc_paras := paras |} :: more |} :: after) = ORows before true.
 Proof. exact ods_bad_cell_count. Qed.
@@ -41,5 +47,12 @@ Example ods_example :
   let st := {| st_para := true; st_s := true; st_one := false; st_tab := true; st_span := true; st_cells := true; st_rows := true |} in
   let t := [[txt "a  b"; txt "a  b"; []]; [txt "a  b"; txt "a  b"; []]; [9%N :: txt "x" ++ LF :: txt "y"]] in
   length (enc_table st t) = 2%nat /\ ods_rows (CDoc [enc_table st t]) 1 = ORows t false
-  /\ map repeated_count [Some (txt "0"); Some (txt "x"); Some (txt "-3"); Some []] = [CountBad; CountBad; CountBad; CountBad].
-Proof. repeat split; vm_compute; reflexivity. Qed.
+  /\ map repeated_count [Some (txt "0"); Some (txt "x"); Some (txt "-3"); Some []; Some (txt "99999999999999999999")]
+     = [CountBad; CountBad; CountBad; CountBad; CountBad]
+  /\ small_table t.
+Proof.
+  split; [vm_compute; reflexivity|]. split; [vm_compute; reflexivity|]. split; [vm_compute; reflexivity|].
+  unfold small_table, small_row, small_text, fits. cbv zeta.
+  split; [vm_compute; discriminate|].
+  repeat (apply Forall_cons || apply Forall_nil || split); vm_compute; discriminate.
+Qed.
